@@ -199,3 +199,37 @@ def parser_operator_table(facts):
                                      "eaten": [tok], "fn": f, "kind": "unary", "parsed_after": ["factor"],
                                      "operand_parsed": {k: _parsed_operand(syn, f, n["then"], st, v) for k, v in fields.items()}})
     return rows
+
+
+def parse_tuple_fold(syn):
+    """what `parse_tuple` returns for 0, 1, 2 and 3 parsed elements, by folding the function (and the private helpers it calls) with
+    the iterator's methods replaced by symbols: -> (ok, description). Required: exactly one element -> that element itself (so
+    that source parentheses exist only as tree shape); two or three elements -> not one of them alone"""
+    from .smalleval import SmallEval, NoEval
+    pt = syn.one_fn("parse_tuple", mod="parse::collection")
+    local = {f["name"]: f for f in syn.fns if f["mod"] == "parse::collection" and f.get("impl_of") is None and f.get("body")}
+    got = {}
+    ev = None
+    for n in (0, 1, 2, 3):
+        elems = [("sym", f"e{i}") for i in range(n)]
+        ev = SmallEval(local_fns=local,
+                       funcs={"AST::new": lambda pos, node: {"__struct__": "AST", "pos": pos, "node": node}},
+                       methods={"start_pos": lambda recv, *a: ("Ok", ("sym", "start")),
+                                "eat": lambda recv, *a: ("Ok", ("sym", "end")),
+                                "eat_if": lambda recv, *a: None,
+                                "parse_vec": lambda recv, *a, _e=elems: ("Ok", ("list", list(_e))),
+                                "union": lambda recv, o: ("sym", "span")})
+        try:
+            r = ev.call(pt, [("sym", "it")])
+        except NoEval as e:
+            return False, f"parse_tuple could not be folded for {n} element(s): {e}"
+        if not (isinstance(r, tuple) and r and r[0] == "Ok"):
+            return False, f"parse_tuple with {n} element(s) does not return Ok: {r!r}"
+        got[n] = r[1]
+    if got[1] != ("sym", "e0"):
+        return False, f"`(e)` is not parsed as `e` itself: parse_tuple returns {got[1]!r} for one element"
+    for n in (2, 3):
+        v = got[n]
+        if isinstance(v, tuple) and v and v[0] == "sym":
+            return False, f"{n} elements between the brackets are parsed as one of them alone ({v[1]}): the others are lost"
+    return True, "`(e)` is parsed as `e` itself, two or three elements are not (parse_tuple and its helpers folded over 0..3 elements)"
